@@ -38,9 +38,11 @@ Conforms(e) ==
     [] e.op = "merkle.Real" ->      \* real hash functions folded over the specification's tree shape
          /\ e.out.panic = "" /\ e.out.ok
          /\ e.in.shape = (IF e.in.n = 0 THEN 0 ELSE Shape(1, e.in.n))
-         /\ e.out.root = e.out.fold /\ Len(e.out.root) = 32
+         /\ e.out.root = e.out.fold /\ Len(e.out.root) = e.out.size
+         /\ e.out.root2 = e.out.root /\ e.out.intact                       \* hashing twice gives the same root, leaves untouched
     [] e.op = "merkle.Big" ->       \* large leaf counts against the bottom-up construction (MerkleMC: equal to MTH)
-         /\ e.out.panic = "" /\ e.out.ok /\ e.out.root = e.out.bottomup /\ Len(e.out.root) = 32
+         /\ e.out.panic = "" /\ e.out.ok /\ e.out.root = e.out.bottomup /\ Len(e.out.root) = e.out.size /\ e.out.intact
+    [] e.op = "merkle.Empty" -> e.out.panic = "" /\ e.out.ok           \* H() for no leaves, whatever earlier callers did with their copies
     [] e.op = "merkle.lp2" ->
          /\ e.out.panic = "" /\ e.out.k = LP2(e.in.n)
     [] OTHER -> FALSE
